@@ -956,6 +956,20 @@ func (c *Ctx) assumedNonNil(in ssa.Instruction) bool {
 	case *ssa.Store:
 		x = i.Addr
 	}
+	// `type:T`: every dereference of a *T (T a named type of the package) is assumed safe - for representation
+	// invariants of pointer-linked structures that the heap model cannot quantify over
+	if x != nil {
+		if pt, ok := x.Type().Underlying().(*types.Pointer); ok {
+			if nt, ok := pt.Elem().(*types.Named); ok {
+				for _, n := range strings.Fields(c.Spec.Opts["assume-nonnil"]) {
+					if n == "type:"+nt.Obj().Name() {
+						c.Assumed["pointers to "+nt.Obj().Name()+" reached from the data structure are assumed non-nil, not checked (opt assume-nonnil type:"+nt.Obj().Name()+")"] = true
+						return true
+					}
+				}
+			}
+		}
+	}
 	ph, ok := x.(*ssa.Phi)
 	if !ok {
 		return false
